@@ -196,8 +196,8 @@ class UnpackMessageStub:
 def s_state_query(vc):
     """Data from either side (message extraction abstracted): a parse error closes that connection and ends the layer; every
     dns_request / dns_response hook is fired with a flow that carries its query; a reply goes to the client only for a flow whose
-    query has the reply's id. Known finding KF-C27-1: an upstream message whose id matches no pending query is reported on a
-    flow without `request` and forwarded to the client."""
+    query has the reply's id; an upstream message whose id matches no pending query is dropped (it used to be reported on a
+    flow without `request` and forwarded to the client: KF-C27-1, fixed in 210d5538b)."""
     from_client = vc.case("from", ["client", "server"]) == "client"
     n = vc.case("messages", [1, 2, 0])
     pending = vc.case("pending_flows", [1, 0])
@@ -240,11 +240,14 @@ def s_state_query(vc):
     vc.ensure("ok.keeps_running", _is_method(vc, h, "state_query"))
     hooks = [c for c in tr if is_cmd(c, "DnsRequestHook") or is_cmd(c, "DnsResponseHook") or is_cmd(c, "DnsErrorHook")]
     sends = [c for c in tr if is_cmd(c, "SendData")]
-    vc.ensure("one_hook_per_message", len(hooks) == n)
-    vc.ensure("one_forward_per_message", len(sends) == n and len(packs.calls) == n)
-    if len(hooks) != n or len(sends) != n or len(packs.calls) != n:
+    # a message from the server that answers no pending query is dropped: no hook, nothing forwarded (was KF-C27-1, fixed in 210d5538b)
+    solicited = [True if from_client else (bool(pre) and vc.branch(Or(*[k == m.id for k, _, _ in pre]))) for m in stub.msgs]
+    kept = [m for m, s_ in zip(stub.msgs, solicited) if s_]
+    vc.ensure("one_hook_per_message", len(hooks) == len(kept))
+    vc.ensure("one_forward_per_message", len(sends) == len(kept) and len(packs.calls) == len(kept))
+    if len(hooks) != len(kept) or len(sends) != len(kept) or len(packs.calls) != len(kept):
         return
-    for i, msg in enumerate(stub.msgs):
+    for i, msg in enumerate(kept):
         hk, snd, (pm, proto, w) = hooks[i], sends[i], packs.calls[i]
         vc.ensure(f"msg{i}.forwarded_message_is_the_decoded_one", pm is msg and snd.data == w)
         fl = hk.flow
@@ -255,10 +258,9 @@ def s_state_query(vc):
             found = [f for k, f in (layer.flows.items if vc.mode == "sym" else list(layer.flows.items())) if vc.branch(k == msg.id)]
             vc.ensure(f"msg{i}.flow_registered_under_its_id", len(found) >= 1 and found[0] is fl)
         else:
-            unsolicited = And(*[k != msg.id for k, _, _ in pre]) if pre else True   # the id matches no query the client has pending
             vc.ensure(f"msg{i}.response_hook", is_cmd(hk, "DnsResponseHook"))
             rq = at_hook.get(id(hk))
-            vc.ensure_kf(f"msg{i}.reported_flow_carries_its_query", rq is not None and not isnone(rq), "KF-C27-1", unsolicited)
+            vc.ensure(f"msg{i}.reported_flow_carries_its_query", rq is not None and not isnone(rq))
             vc.ensure(f"msg{i}.goes_to_client", snd.connection is client)
             if rq is not None and not isnone(rq):
                 vc.ensure(f"msg{i}.reply_id_matches_the_query", rq.id == msg.id)
@@ -328,7 +330,11 @@ def _register_oracle():
 _register_oracle()
 STREAMS = [b"", b"\x00", b"\x00\x03abc", b"\x00\x03abc\x00\x02de", b"\x00\x03abc\x00", b"\x00\x03abc\x00\x05d", b"\x00\x00", b"\x00\x03abc\x00\x00", b"\x00\x01\xff",
            b"\x00\x03abc\x00\x01\xff", b"\x00\x05ab", b"\x00\x03abc\x00\x02de\x00\x01f", b"abc", b"\xffx"]
-STREAM_CANDS = [dict(stream=x, data=x, kept=b"") for x in STREAMS] + [dict(kept=x[:k], data=x[k:]) for x in STREAMS[2:10] for k in (1, 2, 4, 5)]
+# candidates must bind every symbol the uninterpreted decoder predicate is applied to (else the model is not realistic)
+STREAM_CANDS = [dict(stream=x) for x in STREAMS + [b"\x00\x01a\x00\x01b\x00\x01c", b"\x00\x01a\x00\x01\xff\x00\x01c", b"\x00\x01a\x00\x01b\x00\x00"]]
+DATAGRAM_CANDS = [dict(data=x) for x in STREAMS]
+BUFFER_CANDS = [dict(kept=x[:k], data=x[k:]) for x in STREAMS for k in (0, 1, 2, 4, 5) if k <= len(x)]
+PAYLOAD_CANDS = [dict(p1_0=1, p1_1=2, p1_2=3, p2_0=a, p2_1=5) for a in (4, 255)]
 
 
 def be16_or(buf, i):
@@ -354,7 +360,7 @@ def msg_data(m):
     return m[1]
 
 
-@scenario("extract.udp", functions=[L + ".unpack_message"], candidates=STREAM_CANDS)
+@scenario("extract.udp", functions=[L + ".unpack_message"], candidates=DATAGRAM_CANDS)
 def s_extract_udp(vc):
     """UDP: one datagram is one message; the TCP buffers are not touched."""
     from_client = vc.case("from", ["client", "server"]) == "client"
@@ -427,7 +433,7 @@ def s_extract_tcp(vc):
         vc.ensure("error.justified", Or(last_failed, zero))
 
 
-@scenario("extract.tcp.buffering", functions=[L + ".unpack_message"], max_unroll=2, candidates=STREAM_CANDS)
+@scenario("extract.tcp.buffering", functions=[L + ".unpack_message"], max_unroll=2, candidates=BUFFER_CANDS)
 def s_extract_buffering(vc):
     """Bytes kept from earlier segments and the new segment are processed exactly like their concatenation arriving at once on
     an empty buffer: same messages, same parse errors, same rest kept. With `extract.tcp.frames` (greedy framing of one stream)
@@ -450,7 +456,7 @@ def s_extract_buffering(vc):
         vc.ensure("same_rest_kept", b1 == b2)
 
 
-@scenario("extract.tcp.segmentation.two_frames", functions=[L + ".unpack_message"], max_unroll=3)
+@scenario("extract.tcp.segmentation.two_frames", functions=[L + ".unpack_message"], max_unroll=3, candidates=PAYLOAD_CANDS)
 def s_extract_split(vc):
     """Two-segment independence on a concrete shape with symbolic payloads: stream = frame(3 octets) followed by a second frame
     (2 octets) / a zero length prefix / an incomplete frame, cut at every position: feeding the two segments extracts the same
@@ -511,7 +517,7 @@ ASSUMPTIONS = [
 EXPLANATION = (
     "T1 proves the mechanisms for all inputs of the stated shapes: DNSMessage.fail/succeed keep id, opcode, RD and the question section; handle_error sends exactly "
     "that SERVFAIL to the client and reports a flow carrying the query; state_query closes the sender on a parse error, fires every hook with a flow that carries its "
-    "query and only answers the client on a flow whose query has the reply's id (outside the recorded unsolicited-message class); unpack_message cuts one stream greedily "
+    "query and only answers the client on a flow whose query has the reply's id (an upstream message that answers no pending query is dropped); unpack_message cuts one stream greedily "
     "into length-prefixed frames, keeps the incomplete rest, rejects a zero prefix, and treats buffered + new bytes exactly like their concatenation. "
     "Independence of an arbitrary segmentation and correspondence over whole query/reply sessions are compositions of these lemmas (induction over segments / events) "
     "that are not mechanised; they are checked bounded in T2 on the real layer with every <=2-cut segmentation."
